@@ -77,21 +77,20 @@ theorem histPut_op : ∀ (h : Bucket HKey Hist) (b : Nat) key x y,
     lget ((fun h key v => histPut h key b v) h key x) y = if y = key then (fun old v => hput old b v) (lget h key) x else lget h y := by
   intro h b key x y; exact histPut_get h key b x y
 
-/-- `writeHistory`, pointwise -/
-theorem histPutAll_get (h : Bucket HKey Hist) (b : Nat) (d : Diff) (hwf : d.WF) (key : HKey) :
-    lget (histPutAll h b d) key = ocases (entryOf d key) (lget h key) (fun v => hput (lget h key) b v) := by
+/-- `writeHistory`, pointwise (either order of the two class-hash loops: under `Diff.WF` no address
+is in both) -/
+theorem histPutAll_get (fix : Bool) (h : Bucket HKey Hist) (b : Nat) (d : Diff) (hwf : d.WF) (key : HKey) :
+    lget (histPutAll fix h b d) key = ocases (entryOf d key) (lget h key) (fun v => hput (lget h key) b v) := by
   unfold histPutAll
   have hop := fun h key x y => histPut_get h key b x y
-  cases key with
+  cases fix <;> simp only [Bool.false_eq_true, if_false, if_true] <;> cases key with
   | storage a k =>
-    simp only
     rw [histFold_frame (fun h key v => histPut h key b v) (fun old v => hput old b v) hop HKey.classHash _ _ _ (by intro x e; cases e)]
     rw [histFold_frame (fun h key v => histPut h key b v) (fun old v => hput old b v) hop HKey.classHash _ _ _ (by intro x e; cases e)]
     rw [histFold_frame (fun h key v => histPut h key b v) (fun old v => hput old b v) hop HKey.nonce _ _ _ (by intro x e; cases e)]
     exact storageFold_get (fun h key v => histPut h key b v) (fun old v => hput old b v) hop d.storage
       hwf.storNodup hwf.slotNodup h a k
   | nonce a =>
-    simp only
     rw [histFold_frame (fun h key v => histPut h key b v) (fun old v => hput old b v) hop HKey.classHash _ _ _ (by intro x e; cases e)]
     rw [histFold_frame (fun h key v => histPut h key b v) (fun old v => hput old b v) hop HKey.classHash _ _ _ (by intro x e; cases e)]
     rw [histFold_get (fun h key v => histPut h key b v) (fun old v => hput old b v) hop HKey.nonce (by intro x y e; cases e; rfl)
@@ -99,11 +98,10 @@ theorem histPutAll_get (h : Bucket HKey Hist) (b : Nat) (d : Diff) (hwf : d.WF) 
     rw [storageFold_frame (fun h key v => histPut h key b v) (fun old v => hput old b v) hop d.storage h _ (by intro a k e; cases e)]
     simp only [entryOf]
   | classHash a =>
-    simp only
     rw [histFold_get (fun h key v => histPut h key b v) (fun old v => hput old b v) hop HKey.classHash (by intro x y e; cases e; rfl)
-      d.deployed hwf.depNodup]
+      _ (by first | exact hwf.depNodup | exact hwf.repNodup)]
     rw [histFold_get (fun h key v => histPut h key b v) (fun old v => hput old b v) hop HKey.classHash (by intro x y e; cases e; rfl)
-      d.replaced hwf.repNodup]
+      _ (by first | exact hwf.repNodup | exact hwf.depNodup)]
     rw [histFold_frame (fun h key v => histPut h key b v) (fun old v => hput old b v) hop HKey.nonce _ _ _ (by intro x e; cases e)]
     rw [storageFold_frame (fun h key v => histPut h key b v) (fun old v => hput old b v) hop d.storage h _ (by intro a k e; cases e)]
     simp only [entryOf]
